@@ -166,6 +166,8 @@ pub struct HandlerRunner {
     dead_keys: HashSet<(u64, [u8; 16])>,
     /// nodes whose application is not reading what its handler reports for the time being
     held: HashSet<u64>,
+    /// monitor lines raised where no output buffer is at hand
+    deferred_mons: Vec<String>,
     entry_use: HashMap<(u64, SocketAddr), std::time::Instant>,
     /// C13: challenges a node put on the wire: (node, challenge) -> (not issued before (ledger ms), address);
     /// and when a handshake was last delivered to a node from an address
@@ -253,6 +255,7 @@ impl Default for HandlerRunner {
             key_pair: HashMap::new(),
             dead_keys: HashSet::new(),
             held: HashSet::new(),
+            deferred_mons: Vec::new(),
             entry_use: HashMap::new(),
             chal_issued: HashMap::new(),
             key_ctr: HashMap::new(),
@@ -356,6 +359,48 @@ fn independent_verify(signer: &Enr, eph: &[u8], cd: &[u8], dst: &NodeId, sig: &[
     m.extend_from_slice(eph);
     m.extend_from_slice(&dst.raw());
     vk.verify_digest(Sha256::new().chain_update(m), &sig).is_ok()
+}
+
+/// HMAC-SHA256 (RFC 2104), written out: the harness's own, so that the key derivation below shares no
+/// code with the crate under test.
+fn hmac_sha256(key: &[u8], data: &[&[u8]]) -> [u8; 32] {
+    use discv5::enr::k256::sha2::{Digest, Sha256};
+    let mut k = [0u8; 64];
+    if key.len() > 64 {
+        k[..32].copy_from_slice(&Sha256::digest(key));
+    } else {
+        k[..key.len()].copy_from_slice(key);
+    }
+    let mut inner = Sha256::new();
+    inner.update(k.iter().map(|b| b ^ 0x36).collect::<Vec<u8>>());
+    for d in data {
+        inner.update(d);
+    }
+    let ih = inner.finalize();
+    let mut outer = Sha256::new();
+    outer.update(k.iter().map(|b| b ^ 0x5c).collect::<Vec<u8>>());
+    outer.update(ih);
+    outer.finalize().into()
+}
+
+/// The session keys of discv5.1 as the specification derives them, computed independently of the
+/// crate: secret = compressed(ephemeral public key * static secret key), HKDF-SHA256 with the
+/// challenge data as salt and "discovery v5 key agreement" || initiator id || recipient id as info;
+/// the first 16 bytes are the initiator's key, the next 16 the recipient's.
+fn independent_keys(local_key: &CombinedKey, initiator: &NodeId, recipient: &NodeId, cd: &[u8], eph: &[u8]) -> Option<([u8; 16], [u8; 16])> {
+    use discv5::enr::k256::elliptic_curve::sec1::ToEncodedPoint;
+    let CombinedKey::Secp256k1(sk) = local_key else { return None };
+    let pk = discv5::enr::k256::PublicKey::from_sec1_bytes(eph).ok()?;
+    let scalar = discv5::enr::k256::SecretKey::from_slice(&sk.to_bytes()).ok()?.to_nonzero_scalar();
+    let shared = discv5::enr::k256::PublicKey::from_affine((pk.to_projective() * *scalar).to_affine()).ok()?;
+    let secret = shared.to_encoded_point(true).as_bytes().to_vec();
+    let prk = hmac_sha256(cd, &[&secret]);
+    let okm = hmac_sha256(&prk, &[b"discovery v5 key agreement", &initiator.raw(), &recipient.raw(), &[1u8]]);
+    let mut a = [0u8; 16];
+    let mut b = [0u8; 16];
+    a.copy_from_slice(&okm[..16]);
+    b.copy_from_slice(&okm[16..]);
+    Some((a, b))
 }
 
 fn body_of(code: u64) -> RequestBody {
@@ -591,6 +636,14 @@ impl HandlerRunner {
                 let mut ct = "G".to_string();
                 if let Some((cdb, cdn)) = signed_cd {
                     if let Some(k) = lkey.as_ref().and_then(|lk| hf::recipient_keys(lk, &local_id, src_id, &cdb, ephem_pubkey)) {
+                        // C02: the keys a handshake yields are the protocol's - bound to the secret of the
+                        // key agreement (whoever lacks both secret keys cannot compute them)
+                        if let Some((ik, rk)) = lkey.as_ref().and_then(|lk| independent_keys(lk, src_id, &local_id, &cdb, ephem_pubkey)) {
+                            if ik != k.initiator_key || rk != k.recipient_key {
+                                self.deferred_mons.push(format!("!MON C02 session-keys-differ-from-the-key-agreement-of-the-protocol node={}", local_idx));
+                                self.deferred_mons.push(format!("!MON C01 session-keys-differ-from-the-key-agreement-of-the-protocol node={}", local_idx));
+                            }
+                        }
                         let t_ini = format!("K:{}:{}:{}:{}:t", eph, cdn, src, local_idx);
                         let t_rcp = format!("K:{}:{}:{}:{}:f", eph, cdn, src, local_idx);
                         self.last_hs_keys = Some((k.initiator_key, k.recipient_key));
@@ -640,6 +693,7 @@ impl HandlerRunner {
     /// Drains the outputs of node `ni`: (events, sends) as model-syntax tokens; records datagrams.
     fn drain(&mut self, ni: usize, out: &mut Vec<String>, stats: &mut Stats) -> String {
         let idx = self.nodes[ni].idx;
+        out.append(&mut self.deferred_mons);
         let mut events = Vec::new();
         self.outstanding_snapshot = self
             .ledger
